@@ -123,7 +123,7 @@ var generalAssumptions = []string{
 	"A-REAL: float64 is modelled as mathematical real (no rounding, NaN or Inf)",
 	"A-STR: strings are an uninterpreted sort with length/byte-at/substring/concat axioms; < on strings is an arbitrary strict total order",
 	"A-MEM: Go memory safety: no forged or dangling pointers; a reference read from memory is allocated; distinct pointee types do not alias",
-	"A-NORETAIN: pointer parameters of functions under contract are not retained beyond the call",
+	"A-NORETAIN: a pointer to a local variable passed to a repository function is treated as not retained only after a syntactic check of the callee (stores / returns / interface conversions of the parameter, depth 4); external callees are trusted not to retain it",
 	"A-SEQ: single goroutine; no concurrent mutation of the verified state",
 }
 
@@ -165,8 +165,20 @@ func checkMain(args []string) {
 	os.MkdirAll(filepath.Join(*outDir, "evidence"), 0o755)
 	b, _ := json.MarshalIndent(res.ev, "", " ")
 	os.WriteFile(filepath.Join(*outDir, "evidence", *prop+".json"), b, 0o644)
+	// at most 12 VIOLATION lines are printed (one unmodelled helper call can make every later obligation of a
+	// function fail); all of them have their replay file and are counted in the summary line
+	nv := 0
 	for _, l := range res.lines {
+		if strings.HasPrefix(l, "VIOLATION") {
+			nv++
+			if nv > 12 {
+				continue
+			}
+		}
 		fmt.Println(l)
+	}
+	if nv > 12 {
+		fmt.Printf("govc: %d further violations not printed (replay files under %s)\n", nv-12, filepath.Join(*outDir, "replays", "out", *prop))
 	}
 	fmt.Printf("property=%s tier=%s obligations=%d discharged=%d known_findings=%d violations=%d functions=%d wall=%.1fs\n",
 		*prop, *tier, res.total, res.discharged, res.known, res.violations, res.nfuncs, res.ev.WallS)
